@@ -50,9 +50,9 @@ pub fn configs(prop: &str) -> Vec<Config> {
         ],
         "C11" => vec![c("backends", 8_000, 250_000), c("typed", 6_000, 150_000)],
         "C12" => vec![
-            c("hash", 10_000, 300_000),
-            c("history", 4_000, 120_000),
-            c("threads", 4_000, 120_000),
+            c("hash", 10_000, 60_000),
+            c("history", 4_000, 40_000),
+            c("threads", 4_000, 60_000),
             Config { kind: "process", quick: 2, thorough: 2, exhaustive: true },
         ],
         "C13" => vec![c("validate", 12_000, 400_000), c("torn", 12_000, 400_000)],
